@@ -3,7 +3,7 @@
 
   seeded.py confirm [ids...]   in scratch worktrees of /repo (under /tmp, removed afterwards): the change
                                applies, the 85 baseline tests pass with it, the demonstration fails with
-                               it and passes without it -> seeded/_incoming/<id>/<v>/confirm.json
+                               it and passes without it -> seeded/<id>-<v>/confirm.json
   seeded.py detect [ids...]    apply each confirmed change to /repo, run the quick check of the property it
                                breaks (and of the listed related ones), undo -> .../detect.json
   seeded.py promote            move confirmed changes to seeded/<id>-<v>/ with meta.json
@@ -19,18 +19,71 @@ def sh(cmd, cwd=None, timeout=3600):
     p = subprocess.run(cmd, cwd=cwd, shell=True, stdout=subprocess.PIPE, stderr=subprocess.STDOUT, text=True, env=ENV, timeout=timeout)
     return p.returncode, p.stdout
 
+SEEDED = os.path.join(ROOT, "seeded")
+
 def mutants(ids):
+    """seeded/<Cxx>-<v>/ directories; ids select by property (C05) or by change (C05-a, C05/a)"""
     out = []
-    only = {tuple(x.split('/')) for x in ids if '/' in x}
-    ids = [x.split('/')[0] for x in ids]
-    for pid in sorted(os.listdir(INC)):
-        if ids and pid not in ids:
+    ids = [x.replace('/', '-') for x in ids]
+    for name in sorted(os.listdir(SEEDED)):
+        m = re.fullmatch(r"(C\d\d)-(\w+)", name)
+        d = os.path.join(SEEDED, name)
+        if not m or not os.path.exists(os.path.join(d, "patch.diff")):
             continue
-        for v in sorted(os.listdir(os.path.join(INC, pid))):
-            d = os.path.join(INC, pid, v)
-            if os.path.exists(os.path.join(d, "patch.diff")) and (not only or (pid, v) in only or not any(o[0] == pid for o in only)):
-                out.append((pid, v, d))
+        pid, v = m.groups()
+        if ids and pid not in ids and name not in ids:
+            continue
+        out.append((pid, v, d))
     return out
+
+def section(text, title_re):
+    m = re.search(r"^##\s*(?:%s)[^\n]*\n(?P<body>.*?)(?=^##\s|\Z)" % title_re, text, re.S | re.M | re.I)
+    return re.sub(r"\s+", " ", m.group("body")).strip() if m else ""
+
+def write_meta(pid, v, d):
+    """meta.json: the property, what the change needs to manifest, what was run and what came of it"""
+    notes = open(os.path.join(d, "notes.md")).read() if os.path.exists(os.path.join(d, "notes.md")) else ""
+    title = notes.splitlines()[0].lstrip('# ').strip() if notes else ""
+    def load(n):
+        p = os.path.join(d, n)
+        return json.load(open(p)) if os.path.exists(p) else None
+    conf, det = load("confirm.json"), load("detect.json")
+    meta = {
+        "property": pid, "variant": v, "title": title,
+        "origin": "written by a fresh sub-agent that was given only the text of the property and a scratch git worktree of /repo; nothing from /verif",
+        "change": section(notes, r"The change|What (?:was )?changed|Change"),
+        "needs_to_manifest": section(notes, r"What is needed[^\n]*|Needs[^\n]*|What it needs[^\n]*|Trigger[^\n]*"),
+        "demonstration": "demo.rs (an integration test: passes on the unchanged tree, fails with patch.diff applied)",
+        "apply": "git -C /repo apply /verif/seeded/%s-%s/patch.diff" % (pid, v), "undo": "git -C /repo checkout -- .",
+        "ran": {
+            "confirm": "tools/seeded.py confirm %s-%s : scratch worktree, demo without the change, 85 baseline tests with it, demo with it" % (pid, v),
+            "detect": "tools/seeded.py detect %s-%s : change applied to /repo, ./bsv check <property> --tier quick, undone" % (pid, v)},
+        "confirmed": conf, "detected": det,
+    }
+    if det:
+        viol = [l for c in det.get("checks", {}).values() for l in c.get("lines", []) if l.startswith("VIOLATION")]
+        meta["caught_by"] = det.get("detected_by", [])
+        meta["caught_with_failing_input"] = any("no-failing-input-found" not in l for l in viol) if viol else False
+    json.dump(meta, open(os.path.join(d, "meta.json"), "w"), indent=1)
+
+def promote():
+    if not os.path.isdir(INC):
+        return
+    for pid, v, d in mutants([]):
+        if not os.path.exists(os.path.join(d, "meta.json")): write_meta(pid, v, d)
+    for pid in sorted(os.listdir(INC)):
+        for v in sorted(os.listdir(os.path.join(INC, pid))):
+            src = os.path.join(INC, pid, v)
+            c = os.path.join(src, "confirm.json")
+            if os.path.exists(c) and json.load(open(c)).get("confirmed"):
+                dst = os.path.join(SEEDED, "%s-%s" % (pid, v))
+                if os.path.exists(dst): shutil.rmtree(dst)
+                shutil.move(src, dst)
+                write_meta(pid, v, dst)
+                print("promoted", pid, v)
+    for pid in os.listdir(INC):
+        if not os.listdir(os.path.join(INC, pid)): os.rmdir(os.path.join(INC, pid))
+    if not os.listdir(INC): os.rmdir(INC)
 
 def test_counts(out):
     passed = sum(int(x) for x in re.findall(r"test result: \w+\. (\d+) passed", out))
@@ -66,6 +119,7 @@ def confirm_lane(lane, items):
             r["confirmed"] = False
             r["apply_log"] = out[-500:]
         json.dump(r, open(os.path.join(d, "confirm.json"), "w"), indent=1)
+        write_meta(pid, v, d)
         print("confirm", pid, v, r["confirmed"], r.get("demo_without"), r.get("suite_with"), r.get("demo_with"), flush=True)
         res.append(r)
     sh("git -C /repo worktree remove --force %s" % wt)
@@ -104,6 +158,7 @@ def detect(ids, tier="quick"):
         sh("git -C /repo reset -q --hard HEAD && git -C /repo clean -fdq src tests")
         r["detected_by"] = [c for c, x in r["checks"].items() if x["exit"] == 1]
         json.dump(r, open(os.path.join(d, "detect.json"), "w"), indent=1)
+        write_meta(pid, v, d)
         print("detect", pid, v, "detected_by", r["detected_by"], {c: x["lines"][:1] for c, x in r["checks"].items()}, flush=True)
 
 def main():
@@ -115,6 +170,12 @@ def main():
         ids = [x for x in a[1:] if not x.startswith("--")]
         if "--thorough" in a: tier = "thorough"
         detect(ids, tier)
+    elif a and a[0] == "promote":
+        promote()
+    elif a and a[0] == "table":
+        for pid, v, d in mutants(a[1:]):
+            m = json.load(open(os.path.join(d, "meta.json")))
+            print("| %s-%s | %s | %s | %s |" % (pid, v, m["title"][:90], ",".join(m.get("caught_by", [])) or "MISSED", "input" if m.get("caught_with_failing_input") else "proof/correspondence only"))
     else:
         print(__doc__)
 
